@@ -339,7 +339,8 @@ func run(c *core.Ctx) {
 
 	// floors: a run that never observed an expected behaviour class decides nothing
 	need := []string{"ok_parents_omitted", "split_resend_observed", "retry_after_failure_observed", "batches_concurrent",
-		"trigger.count", "trigger.bytes", "trigger.timeout", "batches_only_parents_no_payload", "single_event_413", "gelf_connect_refused_then_retry"}
+		"trigger.count", "trigger.bytes", "trigger.timeout", "batches_only_parents_no_payload", "single_event_413", "gelf_connect_refused_then_retry",
+		"giveup_after_partial_accept", "giveup_retries_exhausted", "batch_right_after_a_given_up_batch"}
 	for _, p := range pluginNames {
 		need = append(need, "batches_ok."+p, "ok_multi_event_payload."+p)
 	}
